@@ -38,9 +38,9 @@ def part_a(report, prop, tier):
     report.scale_block = U["scale_block"]
     items = U["listings"]
     if prop == "C08":
-        items = [x for x in items if not (len(x["listing"]) == 1 and x["listing"][0]["mn"] == "op")]
+        items = [x for x in items if not (x["listing"] and all(l["mn"] == "op" for l in x["listing"] if l["kind"] == "insn"))]
     elif prop == "C09":
-        items = [x for x in items if len(x["listing"]) == 1 and x["listing"][0]["mn"] == "op"]
+        items = [x for x in items if x["listing"] and all(l["mn"] == "op" for l in x["listing"] if l["kind"] == "insn")]
     texts = ["\n".join(x["lines"]) + "\n" for x in items]
     obs = parsepipe.parse_texts(texts, f"{prop}a")
     cases = [parsepipe.case("abs", x["lines"], x["listing"], o) for x, o in zip(items, obs)]
